@@ -364,63 +364,80 @@ func c19concurrent(r *kit.Run) {
 			}
 			return true
 		}
-		e := &vrt.Explorer{Body: body, Stop: r.OutOfTime}
-		e.Shard, e.ShardN = r.Shard()
-		e.Cfg = vrt.Config{Bound: bound, Sites: true, NoPreempt: noPre, StepCap: 200000}
-		e.Check = func(x *vrt.Exec) {
-			r.Eval(1)
-			r.Count("concurrent_executions", 1)
-			cs := map[string]any{"programs": pr, "schedule": x.Choices(), "preemptions": x.Cost}
-			compute := func(x *vrt.Exec) []vfail {
-				var out []vfail
-				if x.Deadlock {
-					out = append(out, vfail{"events-concurrent", "deadlock", fmt.Sprintf("programs %v: blocked %v", pr, x.Blocked)})
+		for _, passBound := range c19passes(bound) {
+			e := &vrt.Explorer{Body: body, Stop: r.OutOfTime}
+			e.Shard, e.ShardN = r.Shard()
+			e.Cfg = vrt.Config{Bound: passBound, Sites: true, NoPreempt: noPre, StepCap: 200000}
+			if passBound > 1 {
+				e.MaxExecs = c19ThoroughExecsPerShard
+			}
+			e.Check = func(x *vrt.Exec) {
+				r.Eval(1)
+				r.Count("concurrent_executions", 1)
+				cs := map[string]any{"programs": pr, "schedule": x.Choices(), "preemptions": x.Cost}
+				compute := func(x *vrt.Exec) []vfail {
+					var out []vfail
+					if x.Deadlock {
+						out = append(out, vfail{"events-concurrent", "deadlock", fmt.Sprintf("programs %v: blocked %v", pr, x.Blocked)})
+						return out
+					}
+					for _, pn := range x.Panics {
+						out = append(out, vfail{"events-concurrent", "panic", pn})
+					}
+					if st.overlaps > 0 {
+						out = append(out, vfail{"events-concurrent", "concurrent-SendMsg-on-one-stream", fmt.Sprintf("programs %v: %d overlapping SendMsg calls on the subscriber's stream", pr, st.overlaps)})
+					}
+					if unfinished {
+						out = append(out, vfail{"events-concurrent", "subscriber-does-not-return-after-cancel", fmt.Sprintf("programs %v", pr)})
+					}
+					// per-key order: the events of one key must be the writer's change log of that key
+					for wi := 0; wi < 2; wi++ {
+						m := map[string]string{}
+						var want, got []string
+						for _, on := range pr[wi] {
+							for _, ev := range byName[on].model(m, 0) {
+								f := strings.Fields(ev)
+								want = append(want, f[0]+" "+f[1])
+							}
+						}
+						key := pr[wi][0][4:5]
+						for _, msg := range st.msgs {
+							f := strings.Fields(evStr(msg))
+							if strings.HasPrefix(f[1], key+"=") {
+								got = append(got, f[0]+" "+f[1])
+							}
+						}
+						if strings.Join(got, ";") != strings.Join(want, ";") {
+							out = append(out, vfail{"events-concurrent", "per-key-events-differ-from-commit-order", fmt.Sprintf("programs %v: key %s stream %v, change log %v", pr, key, got, want)})
+						}
+					}
 					return out
 				}
-				for _, pn := range x.Panics {
-					out = append(out, vfail{"events-concurrent", "panic", pn})
+				vrtReport(r, e.Cfg, body, x, compute, cs)
+				if x.Cost > 0 {
+					r.Nontrivial(fmt.Sprintf("conc%d/%v", pi, x.Choices()))
 				}
-				if st.overlaps > 0 {
-					out = append(out, vfail{"events-concurrent", "concurrent-SendMsg-on-one-stream", fmt.Sprintf("programs %v: %d overlapping SendMsg calls on the subscriber's stream", pr, st.overlaps)})
-				}
-				if unfinished {
-					out = append(out, vfail{"events-concurrent", "subscriber-does-not-return-after-cancel", fmt.Sprintf("programs %v", pr)})
-				}
-				// per-key order: the events of one key must be the writer's change log of that key
-				for wi := 0; wi < 2; wi++ {
-					m := map[string]string{}
-					var want, got []string
-					for _, on := range pr[wi] {
-						for _, ev := range byName[on].model(m, 0) {
-							f := strings.Fields(ev)
-							want = append(want, f[0]+" "+f[1])
-						}
-					}
-					key := pr[wi][0][4:5]
-					for _, msg := range st.msgs {
-						f := strings.Fields(evStr(msg))
-						if strings.HasPrefix(f[1], key+"=") {
-							got = append(got, f[0]+" "+f[1])
-						}
-					}
-					if strings.Join(got, ";") != strings.Join(want, ";") {
-						out = append(out, vfail{"events-concurrent", "per-key-events-differ-from-commit-order", fmt.Sprintf("programs %v: key %s stream %v, change log %v", pr, key, got, want)})
-					}
-				}
-				return out
 			}
-			vrtReport(r, e.Cfg, body, x, compute, cs)
-			if x.Cost > 0 {
-				r.Nontrivial(fmt.Sprintf("conc%d/%v", pi, x.Choices()))
+			e.Run()
+			if e.Stats.Capped {
+				r.NotExhaustive(fmt.Sprintf("concurrent programs %v bound %d capped after %d executions", pr, passBound, e.Stats.Execs))
 			}
+			r.SetMax("max_points_per_execution", int64(e.Stats.MaxPoints))
 		}
-		e.Run()
-		if e.Stats.Capped {
-			r.NotExhaustive(fmt.Sprintf("concurrent programs %v capped after %d executions", pr, e.Stats.Execs))
-		}
-		r.SetMax("max_points_per_execution", int64(e.Stats.MaxPoints))
 	}
 }
+
+// c19passes: the quick tier explores bound 1 in full; the thorough tier explores bound 1 in full and then bound 2 up to
+// a fixed number of executions per program and shard, so that every program gets its share of the budget (a time
+// budget alone was used up by the first programs and the same-key programs were never reached).
+func c19passes(bound int) []int {
+	if bound > 1 {
+		return []int{1, bound}
+	}
+	return []int{bound}
+}
+
+const c19ThoroughExecsPerShard = 6000
 
 // c19sameKey: two writers on the SAME key (which exists before, a=9) and one subscriber, on an in-memory swamp and on
 // an immediate-write persistent swamp (the save path releases the record guard inside SaveFunction there); all
@@ -520,49 +537,54 @@ func c19sameKey(r *kit.Run) {
 				}
 				return true
 			}
-			e := &vrt.Explorer{Body: body, Stop: r.OutOfTime}
-			e.Shard, e.ShardN = r.Shard()
-			e.Cfg = vrt.Config{Bound: bound, Sites: true, NoPreempt: noPre, StepCap: 200000}
-			e.Check = func(x *vrt.Exec) {
-				r.Eval(1)
-				r.Count("same_key_executions", 1)
-				cs := map[string]any{"configuration": conf, "programs": pr, "schedule": x.Choices(), "preemptions": x.Cost, "admissible": admL}
-				compute := func(x *vrt.Exec) []vfail {
-					var out []vfail
-					if x.Deadlock {
-						return append(out, vfail{"events-concurrent", "deadlock", fmt.Sprintf("programs %v: blocked %v", pr, x.Blocked)})
-					}
-					for _, pn := range x.Panics {
-						out = append(out, vfail{"events-concurrent", "panic", pn})
-					}
-					var got []string
-					for _, msg := range st.msgs {
-						if ev := strip(evStr(msg)); strings.Contains(ev, " a=") {
-							got = append(got, ev)
+			for _, passBound := range c19passes(bound) {
+				e := &vrt.Explorer{Body: body, Stop: r.OutOfTime}
+				e.Shard, e.ShardN = r.Shard()
+				e.Cfg = vrt.Config{Bound: passBound, Sites: true, NoPreempt: noPre, StepCap: 200000}
+				if passBound > 1 {
+					e.MaxExecs = c19ThoroughExecsPerShard
+				}
+				e.Check = func(x *vrt.Exec) {
+					r.Eval(1)
+					r.Count("same_key_executions", 1)
+					cs := map[string]any{"configuration": conf, "programs": pr, "schedule": x.Choices(), "preemptions": x.Cost, "admissible": admL}
+					compute := func(x *vrt.Exec) []vfail {
+						var out []vfail
+						if x.Deadlock {
+							return append(out, vfail{"events-concurrent", "deadlock", fmt.Sprintf("programs %v: blocked %v", pr, x.Blocked)})
 						}
-					}
-					obs := strings.Join(got, ";") + " => " + final
-					if !adm[obs] {
-						kind := "events-differ-from-every-commit-order"
-						seen := map[string]bool{}
-						for _, g := range got {
-							if seen[g] {
-								kind = "same-committed-value-announced-twice"
+						for _, pn := range x.Panics {
+							out = append(out, vfail{"events-concurrent", "panic", pn})
+						}
+						var got []string
+						for _, msg := range st.msgs {
+							if ev := strip(evStr(msg)); strings.Contains(ev, " a=") {
+								got = append(got, ev)
 							}
-							seen[g] = true
 						}
-						out = append(out, vfail{"events-concurrent", fmt.Sprintf("same-key:%s:%s", conf, kind), fmt.Sprintf("%s swamp, programs %v on key a (a=9 before): the stream and the final value read [%s]; sequential orders give %v", conf, pr, obs, admL)})
+						obs := strings.Join(got, ";") + " => " + final
+						if !adm[obs] {
+							kind := "events-differ-from-every-commit-order"
+							seen := map[string]bool{}
+							for _, g := range got {
+								if seen[g] {
+									kind = "same-committed-value-announced-twice"
+								}
+								seen[g] = true
+							}
+							out = append(out, vfail{"events-concurrent", fmt.Sprintf("same-key:%s:%s", conf, kind), fmt.Sprintf("%s swamp, programs %v on key a (a=9 before): the stream and the final value read [%s]; sequential orders give %v", conf, pr, obs, admL)})
+						}
+						return out
 					}
-					return out
+					vrtReport(r, e.Cfg, body, x, compute, cs)
+					if x.Cost > 0 {
+						r.Nontrivial(fmt.Sprintf("same%s%d/%v", conf, pi, x.Choices()))
+					}
 				}
-				vrtReport(r, e.Cfg, body, x, compute, cs)
-				if x.Cost > 0 {
-					r.Nontrivial(fmt.Sprintf("same%s%d/%v", conf, pi, x.Choices()))
+				e.Run()
+				if e.Stats.Capped {
+					r.NotExhaustive(fmt.Sprintf("same-key programs %v bound %d capped after %d executions", pr, passBound, e.Stats.Execs))
 				}
-			}
-			e.Run()
-			if e.Stats.Capped {
-				r.NotExhaustive(fmt.Sprintf("same-key programs %v capped after %d executions", pr, e.Stats.Execs))
 			}
 		}
 	}
